@@ -52,7 +52,7 @@ const ALLOWED: [(&str, &str, &str); 6] = [
 /// the caller asked for if every builder step keeps the sources added so far. Each `add_asn_*` / `set_output_*` method of
 /// each typestate of `Compiler` is evaluated on a state that already holds two sources (where the state has any): the
 /// resulting state holds them, in order, followed by the new ones, and the output mode is carried over.
-fn builder_sources(m: &Model, ctx: &mut Ctx) {
+pub fn builder_sources(m: &Model, ctx: &mut Ctx) {
     use crate::eval::{Env, Evaluator, Val};
     use std::collections::BTreeMap as Map;
     let consts = const_resolver(m);
@@ -422,9 +422,16 @@ fn same_pipeline(m: &Model, ctx: &mut Ctx) {
     if !found_ready {
         ctx.fail_closed("C20.same", "no compile_to_string calling internal_compile found");
     }
+    fmt_keeps(m, ctx, "C20.same");
+}
+
+/// CompileResult::fmt — the step between internal_compile and the caller — may only replace `generated` by its formatted
+/// version (or keep it when the formatter fails); the warnings pass through as they are, equal ones included (two
+/// definitions of the same unsupported kind produce equal warnings: each accounts for one definition). Shared as C10.local.
+pub fn fmt_keeps(m: &Model, ctx: &mut Ctx, rule: &str) {
     // CompileResult::fmt only replaces `generated` by its formatted version (or keeps it)
     if let Ok(f) = m.find_fn(Some("CompileResult"), "fmt", None) {
-        ctx.oblige("C20.same", "fmt-keeps-text-on-format-failure", true);
+        ctx.oblige(rule, "fmt-keeps-text-on-format-failure", true);
         // evaluated with a formatter that succeeds and one that fails: formatted text / the text as it was; warnings untouched
         for fails in [false, true] {
             let hook = move |_: &Evaluator, name: &str, a: &[Val]| -> Option<Result<Val, String>> {
@@ -438,7 +445,7 @@ fn same_pipeline(m: &Model, ctx: &mut Ctx) {
             let ev = Evaluator { consts: &consts, call_hook: &hook, inline: None };
             let mut me = BTreeMap::new();
             me.insert("generated".to_string(), Val::Str("TEXT".into()));
-            me.insert("warnings".to_string(), Val::List(vec![Val::Sym("W".into())]));
+            me.insert("warnings".to_string(), Val::List(vec![Val::Sym("W".into()), Val::Sym("W".into()), Val::Sym("V".into())]));
             let mut env = Env::new();
             env.insert("self".into(), Val::Ctor("CompileResult".into(), vec![], me));
             match ev.eval_fn_body(&f.block, &mut env) {
@@ -446,14 +453,16 @@ fn same_pipeline(m: &Model, ctx: &mut Ctx) {
                     let text = fields.get("generated").map(|v| v.show()).unwrap_or_default();
                     let warns = fields.get("warnings").map(|v| v.show()).unwrap_or_default();
                     let want = if fails { "\"TEXT\"" } else { "\"FORMATTED TEXT\"" };
-                    if text != want || warns != "[W]" {
-                        ctx.violate("C20.same", "fmt-keeps-text-on-format-failure", &f.file, f.line, &format!("CompileResult::fmt with a formatter that {} returns generated = {} and warnings = {}; expected {} and [W]: formatting may only replace the text by its formatted version, and keeps it when the formatter fails", if fails { "fails" } else { "succeeds" }, text, warns, want));
+                    if text != want || warns != "[W,W,V]" {
+                        ctx.violate(rule, "fmt-keeps-text-on-format-failure", &f.file, f.line, &format!("CompileResult::fmt with a formatter that {} returns generated = {} and warnings = {}; expected {} and [W,W,V]: formatting may only replace the text by its formatted version, keeps it when the formatter fails, and hands every warning on (two equal warnings account for two definitions)", if fails { "fails" } else { "succeeds" }, text, warns, want));
                     }
                 }
-                Ok(o) => ctx.fail_closed("C20.same", &format!("[CompileResult::fmt]: result {}", o.show())),
-                Err(e) => ctx.fail_closed("C20.same", &format!("[CompileResult::fmt]: {}", e)),
+                Ok(o) => ctx.fail_closed(rule, &format!("[CompileResult::fmt]: result {}", o.show())),
+                Err(e) => ctx.fail_closed(rule, &format!("[CompileResult::fmt]: {}", e)),
             }
         }
+    } else {
+        ctx.fail_closed(rule, "anchor not found: CompileResult::fmt");
     }
 }
 
@@ -491,6 +500,9 @@ fn dest_tables(m: &Model, ctx: &mut Ctx) {
         match (name, last) {
             (".is_dir", _) => Some(Ok(Val::Bool(dir.get()))),
             (".is_file", _) => Some(Ok(Val::Bool(!dir.get()))),
+            // whether the destination is a directory is a fact about the file system, not about the spelling of the path
+            (".extension", _) | (".file_name", _) | (".file_stem", _) | (".ends_with", _) | (".to_str", _) | (".to_string_lossy", _) | (".components", _) if matches!(a.first(), Some(Val::Sym(p)) if p == "P") =>
+                Some(Err(format!("$shape:{}", &name[1..]))),
             (".join", _) => match (a.first(), a.get(1)) {
                 (Some(Val::Sym(p)), Some(Val::Str(x))) => Some(Ok(Val::Sym(format!("{}/{}", p, x)))),
                 _ => Some(Err("path.join with an unmodelled argument".into())),
@@ -565,6 +577,8 @@ fn dest_tables(m: &Model, ctx: &mut Ctx) {
                             }
                         }
                         (_, Ok(o)) => ctx.violate("C20.dest", &key, &f.file, line, &format!("output mode {}: the arm does not evaluate to one delivery of the compiled text (got {}); recognised primitives: fs::write, File::create / OpenOptions(..truncate(true)).open + write_all, io::stdout().write_all", key, o.show().chars().take(160).collect::<String>())),
+                        (_, Err(e)) if e.contains("$shape:") => ctx.violate("C20.dest", &format!("{}:kind-from-spelling", key), &f.file, line,
+                            &format!("output mode {}: what is done with the destination depends on `path.{}()` — on how the path is spelt. Whether it is a directory (generated<ext> goes inside) or a file is a fact about the file system (`is_dir()`): a directory named `out.v1` and a file named `bindings` exist", key, e.split("$shape:").nth(1).unwrap_or("?").split(|c: char| !c.is_alphanumeric() && c != '_').next().unwrap_or("?"))),
                         (_, Err(e)) => ctx.fail_closed("C20.dest", &format!("{}: {}", key, e)),
                     }
                     if v != "NoOutput" && !body.contains(".map_err(") && !body.contains("?") {
@@ -686,7 +700,7 @@ fn asn1_macro(m: &Model, ctx: &mut Ctx) {
                 let consts = const_resolver(m);
                 let hdr = m.consts.iter().find(|c| c.name == "DUMMY_HEADER").and_then(|c| lit_of(&c.expr));
                 let ftr = m.consts.iter().find(|c| c.name == "DUMMY_FOOTER").and_then(|c| lit_of(&c.expr));
-                for (label, text) in [("module", "M DEFINITIONS ::= BEGIN A ::= INTEGER END"), ("snippet", "A ::= INTEGER")] {
+                for (label, text) in [("module", "M DEFINITIONS ::= BEGIN A ::= INTEGER END"), ("module", "M DEFINITIONS AUTOMATIC TAGS ::=BEGIN\nA ::= INTEGER\nEND"), ("snippet", "A ::= INTEGER")] {
                     let t = text.to_string();
                     let hook = move |_: &Evaluator, name: &str, _: &[Val]| -> Option<Result<Val, String>> {
                         match name {
